@@ -73,7 +73,8 @@ enum Ended {
 
 fn probe<T: Subject>(below: usize, d: usize, op: OverOp, fill: bool, other: Tid, at: u16) -> Ended {
     let c = fixed_cap(T::TID).unwrap();
-    let start = c - below.min(c);
+    // below in 0..=3: start at capacity - below; below == 4: start from an EMPTY vector
+    let start = if below >= 4 { 0 } else { c - below.min(c) };
     let target = c + d; // requested total length
     let grow = target - start; // bits to add
     let b = bit(fill);
@@ -160,9 +161,8 @@ fn probe<T: Subject>(below: usize, d: usize, op: OverOp, fill: bool, other: Tid,
             lc(&v)
         }
         OverOp::Append | OverOp::Prepend | OverOp::Insert => {
-            if fixed_cap(other).map_or(false, |oc| oc < grow) {
-                return Ended::Skip;
-            }
+            // an operand type able to hold `grow` bits (fall back to the unbounded types)
+            let other = if fixed_cap(other).map_or(false, |oc| oc < grow) { if at % 2 == 0 { TID_D } else { TID_A } } else { other };
             let mut v: T = build_canon(&val(start));
             let o = build_canon_z(other, &val(grow));
             z_match!(&o, x => match op {
@@ -195,23 +195,23 @@ impl Property for C19 {
         "C19"
     }
     fn rule(&self) -> String {
-        "Cases: for each of the 17 fixed types, a valid vector of length C-below (below in 0..=3) and one request exceeding the capacity by d in 1..70 bits: zeros/ones/repeat(C+d) must panic; from_bytes/from_binary/from_hex/read/TryFrom<integer | slice | vector of every other type> must return Err; push, resize, sign_extend, append/prepend/insert (operand of any zoo type), extend and collect must panic. Returning normally is the violation (reported with the resulting len/capacity). Both build profiles run every case. In the profile with debug assertions only: get/set(i>=len), copy_range with start or end > len and split_off(i>len) must panic, on all 19 types. Enumerated: the complete product (type x below x d x operation x fill bit) with the operand type rotating; random adds operand types/positions. Non-trivial: every over-capacity request from a valid state is; distinct by hash of the case (type, operation, start length, d, operand type).".into()
+        "Cases: for each of the 17 fixed types, a valid vector of length C-below (below in 0..=3) or an empty one and one request exceeding the capacity by d in 1..70 bits: zeros/ones/repeat(C+d) must panic; from_bytes/from_binary/from_hex/read/TryFrom<integer | slice | vector of every other type> must return Err; push, resize, sign_extend, append/prepend/insert (operand of any zoo type), extend and collect must panic. Returning normally is the violation (reported with the resulting len/capacity). Both build profiles run every case. In the profile with debug assertions only: get/set(i>=len), copy_range with start or end > len and split_off(i>len) must panic, on all 19 types. Enumerated: the complete product (type x below x d x operation x fill bit) with the operand type rotating; random adds operand types/positions. Non-trivial: every over-capacity request from a valid state is; distinct by hash of the case (type, operation, start length, d, operand type).".into()
     }
     fn random_cases(&self, tier: Tier) -> u64 {
         tier.pick(150000, 4800000)
     }
     fn strategy(&self, tier: Tier) -> BoxedStrategy<C19Case> {
-        let over = ((0usize..17).prop_map(|i| FIXED_TIDS[i]), 0usize..4, 1usize..70, 0usize..18, any::<bool>(), 0..NT, any::<u16>()).prop_map(|(ty, below, d, o, fill, other, at)| C19Case::Over { ty, below, d, op: OVER_OPS[o], fill, other, at });
+        let over = ((0usize..17).prop_map(|i| FIXED_TIDS[i]), 0usize..5, 1usize..70, 0usize..18, any::<bool>(), 0..NT, any::<u16>()).prop_map(|(ty, below, d, o, fill, other, at)| C19Case::Over { ty, below, d, op: OVER_OPS[o], fill, other, at });
         let bad = (arb_operand(tier), 0usize..5, prop_oneof![Just(0usize), Just(1), 0usize..200]).prop_map(|(a, w, beyond)| C19Case::BadIndex { a, which: [BadIdx::Get, BadIdx::Set, BadIdx::CopyRangeEnd, BadIdx::CopyRangeStart, BadIdx::SplitOff][w], beyond });
         prop_oneof![5 => over, 1 => bad].boxed()
     }
     fn exhaustive_subspaces(&self, _tier: Tier) -> Vec<String> {
-        vec!["complete product: 17 fixed types x start length C-3..C x d in 1..70 x 18 over-capacity operations x fill bit (operand type rotates over the 19 zoo types)".into()]
+        vec!["complete product: 17 fixed types x start length {C-3..C, 0} x d in 1..70 x 18 over-capacity operations x fill bit (operand type rotates over the 19 zoo types)".into()]
     }
     fn enumerate(&self, _tier: Tier, sh: &mut Shard, f: &mut dyn FnMut(C19Case) -> bool) {
         let mut rot: u32 = 0;
         for ty in FIXED_TIDS {
-            for below in 0..4usize {
+            for below in 0..5usize {
                 for d in 1..70usize {
                     if !sh.mine() {
                         continue;
@@ -258,7 +258,7 @@ impl Property for C19 {
                         st.note(case, false);
                         return Ok(());
                     }
-                    Ended::Returned(l, cap) => fail!(format!("{}/returned", what), "{}: {:?} requesting {} bits (capacity {}, start length {}) returned normally with len()={} capacity()={}", NAMES[*ty as usize], op, c + d, c, c - below.min(&c), l, cap),
+                    Ended::Returned(l, cap) => fail!(format!("{}/returned", what), "{}: {:?} requesting {} bits (capacity {}, start length {}) returned normally with len()={} capacity()={}", NAMES[*ty as usize], op, c + d, c, if *below >= 4 { 0 } else { c - below.min(&c) }, l, cap),
                     Ended::Panicked => ensure!(!must_err, format!("{}/panicked-instead-of-err", what), "{}: {:?} beyond capacity panicked although it must return an error", NAMES[*ty as usize], op),
                     Ended::Errored => ensure!(must_err, "harness", "growth operation returned an error value?"),
                 }
